@@ -113,17 +113,21 @@ class KitLocalConnector(LocalConnector):
     """LocalConnector with a constant, cheap hardware description (no psutil probing)."""
 
     def __init__(self, deployment_name: str, config_dir: str, transferBufferSize: int = 2 ** 16,
-                 cores: float = 64.0, slots: int | None = None):
+                 cores: float = 64.0, slots: int | None = None, nlocs: int = 1):
         super(LocalConnector, self).__init__(deployment_name, config_dir, transferBufferSize)
+        self._nlocs = nlocs
         self._hardware = Hardware(cores=float(cores), memory=float(2 ** 20),
                                   storage={os.sep: Storage(mount_point=os.sep, size=float(2 ** 30))})
         self._slots = slots
 
     async def get_available_locations(self, service=None):
+        # nlocs > 1: several locations of ONE deployment (all on this machine's file system), for multi-location targets
+        names = ["__LOCAL__"] + [f"node-{i}" for i in range(1, self._nlocs)]
         return {
-            "__LOCAL__": AvailableLocation(
-                name="__LOCAL__", deployment=self.deployment_name, service=service, hostname="localhost",
+            n: AvailableLocation(
+                name=n, deployment=self.deployment_name, service=service, hostname="localhost",
                 local=True, slots=self._slots or 1, hardware=None if self._slots else self._hardware)
+            for n in names
         }
 
     async def run(self, location, command, environment=None, workdir=None, stdin=None, stdout=None, stderr=None,
@@ -449,14 +453,15 @@ class PyConditionalStep(ConditionalStep):
 class WB:
     """Small builder around the real step classes.  Names are deterministic."""
 
-    def __init__(self, context, workdir: str, name="wf", recoverable_inputs=True):
+    def __init__(self, context, workdir: str, name="wf", recoverable_inputs=True, nlocs=1):
         self.ctx = context
+        self.nlocs = nlocs
         self.wf = Workflow(context, config={}, name=name)
         self.workdir = workdir
         self.n = 0
         self.inputs: list[tuple[Port, Token]] = []
-        self.deploy_cfg = DeploymentConfig(name="kit", type="kitlocal", config={}, external=False, lazy=False,
-                                           workdir=workdir)
+        self.deploy_cfg = DeploymentConfig(name="kit", type="kitlocal", config={"nlocs": nlocs} if nlocs > 1 else {},
+                                           external=False, lazy=False, workdir=workdir)
         self._deploy_step = None
         self.job_steps: dict[str, ExecuteStep] = {}
         self.recoverable_inputs = recoverable_inputs
@@ -557,11 +562,11 @@ class WB:
                 connector_port=self.port(cls=ConnectorPort))
         return self._deploy_step
 
-    def job(self, ports: dict, op="copy", name=None, plan_steps=True, out_name="out", dirs=None):
+    def job(self, ports: dict, op="copy", name=None, plan_steps=True, out_name="out", dirs=None, locations=1):
         """schedule -> transfer(per input) -> execute; returns the output port."""
         name = name or self._name("job")
         dep = self.deploy_step()
-        binding = BindingConfig(targets=[Target(deployment=self.deploy_cfg, workdir=self.workdir)])
+        binding = BindingConfig(targets=[Target(deployment=self.deploy_cfg, workdir=self.workdir, locations=locations)])
         sched = self.wf.create_step(
             PlanScheduleStep if plan_steps else ScheduleStep, name=posixpath.join(name, "__schedule__"),
             job_prefix=name, connector_ports={"kit": dep.get_output_port()}, binding_config=binding,
